@@ -1182,6 +1182,33 @@ fn damage(rng: &mut Rng, d: &mut Vec<u8>) {
     }
 }
 
+/// damage aimed at the checks of the transformed glyf reader (repaired in 309cc90, 5955e8e, 84a8f8b):
+/// a bboxStreamSize at or below the length of the bitmap, a first contour of zero points, contour
+/// sizes that reach or cross 65535 points
+fn damage_tglyf(rng: &mut Rng, d: &mut Vec<u8>) {
+    if d.len() < 36 {
+        return damage(rng, d);
+    }
+    let u32_at = |d: &Vec<u8>, o: usize| u32::from_be_bytes([d[o], d[o + 1], d[o + 2], d[o + 3]]) as usize;
+    let ng = u16::from_be_bytes([d[4], d[5]]) as usize;
+    let np_size = u32_at(d, 12);
+    let np_start = 36 + u32_at(d, 8);
+    match rng.below(3) {
+        0 => {
+            let bitmap = 4 * ((ng + 31) / 32);
+            let v = rng.below(bitmap as u64 + 1) as u32;
+            d[28..32].copy_from_slice(&v.to_be_bytes());
+        }
+        1 if np_size > 0 && np_start < d.len() => d[np_start] = 0,
+        2 if np_size > 0 && np_start < d.len() => {
+            let v = 65535 - rng.below(4) as u16;
+            d.splice(np_start..np_start + 1, [253, (v >> 8) as u8, v as u8]);
+            d[12..16].copy_from_slice(&((np_size + 2) as u32).to_be_bytes());
+        }
+        _ => damage(rng, d),
+    }
+}
+
 pub fn gen_case(rng: &mut Rng) -> String {
     match rng.below(20) {
         0 | 1 => {
@@ -1229,7 +1256,11 @@ pub fn gen_case(rng: &mut Rng) -> String {
             let fmt = rng.below(2) as u16;
             let mut d = enc_tglyf(rng, &gs, fmt);
             if rng.chance(1, 5) {
-                damage(rng, &mut d);
+                if rng.chance(1, 3) {
+                    damage_tglyf(rng, &mut d);
+                } else {
+                    damage(rng, &mut d);
+                }
                 format!("glyf|{}|-", hex(&d))
             } else {
                 format!("glyf|{}|{}", hex(&d), dump_gs(&gs))
